@@ -107,9 +107,38 @@ CLAIMED = {
              "C17_weekday (period 7, range 1..7, all integers); C17_normalize_valid; C17_month_carry (12 months "
              "= 1 year in the carry arithmetic); C17_time: HOUR/MINUTE/SECOND(s/86400) for all 86400 seconds in "
              "IEEE binary64 (PrimFloat; depends on the kernel's primitive float/int operations, listed in the "
-             "evidence). Not proved (differential run + oracle only): day carry DATE(y,m,d)=DATE(y,m,1)+d-1 "
-             "(a known finding for d <= 0), EOMONTH/EDATE end-to-end, YEARFRAC symmetry, #NUM! for out-of-range "
-             "results. The PrimFloat model is hand-written: its tie is the exhaustive comparison of all 86400 "
+             "evidence). FULL, by symbolic execution of the generated normalize_year/date/months_inc/yearfrac + "
+             "pure calendar lemmas (Proofs/C17Carry.v, C17Months.v, C17Total.v, C17Yearfrac.v): C17_day_carry "
+             "(ANY integer month whose normalised month is 1900-03 or later, any day 1 <= d <= 25000 = the "
+             "recursion budget: DATE(y,m,d) = DATE(y,m,1)+d-1 while the result is <= 2958465; induction on the "
+             "fuel of the recursive normalize_year); C17_ord2ymd_inverse (ord2ymd inverts ymd2ord on every valid "
+             "date of the range: sweep + injectivity of ymd2ord); C17_eomonth (every n > 60, ANY integer shift, "
+             "target month 1900-03..9999-11: EOMONTH(n,k) is the last day of the shifted month: YEAR/MONTH are "
+             "the shifted ones, DAY = length of the month, the next day has DAY 1); C17_edate (shifted year/"
+             "month, day = min(DAY(n), length of the target month), target 1900-03..9999-12), C17_edate_zero, "
+             "C17_edate_compose (EDATE(EDATE(n,a),b) = EDATE(n,a+b) for DAY(n) <= 28); C17_serial_total (YEAR/"
+             "MONTH/DAY/WEEKDAY under their wrappers, EVERY integer: ranged numbers on 0..2958465, #NUM! "
+             "elsewhere); C17_date_small_day (days 1..28, ALL integer years and months: TypeError exactly when "
+             "February of a normalised year <= 0 is reached, else #NUM!/60.0/serial day); C17_yearfrac_symmetric "
+             "(all integer dates, every basis value: the code orders the dates first; for basis 1 the common "
+             "computation is the untranslated yearfrac_basis_1 = Unmodelled on both sides) and "
+             "C17_yearfrac_wrapped_symmetric (through the decorator wrapper, integer or missing basis); "
+             "C17_date_month_carry (DATE(y, m+12k, d) = DATE(y+k, m, d) on the generated code for ALL integer "
+             "m, d, k, years in 1900..9999); C17_day_carry_overflow (the forward carry past 9999-12-31 is #NUM!) "
+             "and C17_months_out_of_calendar (EDATE/EOMONTH with a target before 1899 or after 9999 are #NUM!); "
+             "C17_day_borrow_defect (the known finding as a theorem: for -27 <= d <= 0 and a month from 1900-04 "
+             "on, DATE(y,m,d) is off from DATE(y,m,1)+d-1 by exactly days_in_month(m) - days_in_month(m-1)). "
+             "PARTIAL: "
+             "C17_date_total_partial (no exception: DATE with any year, month >= -11000, |day| <= 25000; EDATE/"
+             "EOMONTH with any serial number, shift >= -10000 — beyond these bounds the model and the "
+             "implementation DO raise: TypeError from is_leap_year(year <= 0), RecursionError/OutOfFuel for "
+             "longer day carries; advisory witnesses Refuted/C17_date_exceptions.v; outside the property's "
+             "quantifier, recorded as inert predicates C17-year-zero-typeerror / C17-day-recursion). REFUTED in "
+             "the model (advisory): the day carry for d <= 0 (Refuted/C17_day_borrow.v, known finding "
+             "C17-day-borrow), EOMONTH into 9999-12 (Refuted/C17_eomonth_last_month.v, known finding "
+             "C17-eomonth-last-month). Not proved: dates up to serial 60 as EOMONTH/EDATE start or target "
+             "(phantom leap day region), non-integer arguments (differential run + oracle only). "
+             "The PrimFloat model is hand-written: its tie is the exhaustive comparison of all 86400 "
              "inputs with the implementation on every run.",
         design_ref="DESIGN.md 5 C17",
     ),
